@@ -202,7 +202,9 @@ def _run_impl(case):
     key = jax.random.PRNGKey(case["seed"])
     # cursors: name -> (get_store(gen), get_key(gen), get_batch_rows(batch), b, n_rows)
     if kind == "ode":
-        g = DataGeneratorODE(key, n, -1.0, 3.0, b)
+        # (`nt_start` is documented as ignored without RAR: given anyway in every other case)
+        kw = {"nt_start": max(1, n // 2)} if case["seed"] % 2 == 0 else {}
+        g = DataGeneratorODE(key, n, -1.0, 3.0, b, **kw)
         cursors = {"times": (lambda g: g.times, lambda g: g.key, lambda bt: bt.temporal_batch)}
     elif kind == "statio":
         g = CubicMeshPDEStatio(key=key, n=n, nb=None, omega_batch_size=b, omega_border_batch_size=None, dim=2,
